@@ -250,6 +250,37 @@ func expectedCues(T, D, U, cueDur int64) []wantCue {
 	return out
 }
 
+// designCuesLong: what calcCueItvls is designed to do for cue durations above 1000 ms (TestCalcCueItvls
+// "long cue"): one cue per k = ceil(cueDur/1000) seconds, at the multiples of k seconds, lasting cueDur,
+// clipped to the segment; a cue that is over before the segment starts does not exist.
+func designCuesLong(T, D, U, cueDur int64) []wantCue {
+	var out []wantCue
+	k := (cueDur + 999) / 1000
+	if D <= 0 || k <= 0 || U < 0 {
+		return out
+	}
+	for q := U / (1000 * k) * k; q*1000 < U+D; q += k {
+		b := max(q*1000, U)
+		e := min(q*1000+cueDur, U+D)
+		if b < e {
+			out = append(out, wantCue{b + (T - U), e + (T - U), q})
+		}
+	}
+	return out
+}
+
+func sameCues(got []cueObs, want []wantCue) bool {
+	if len(got) != len(want) {
+		return false
+	}
+	for i := range got {
+		if got[i].Begin != want[i].Begin || got[i].End != want[i].End || got[i].UTC != want[i].UTC {
+			return false
+		}
+	}
+	return true
+}
+
 type segIn struct {
 	Kind    string `json:"kind"` // "segment"
 	Asset   string `json:"asset"`
@@ -338,8 +369,6 @@ func checkSegment(c *lib.Ctx, id string, in segIn, ref lib.SegObs, ts int64, o s
 				key := "wvtt-sample-duration"
 				if U%1000 >= cd && cd <= 1000 {
 					key = "cue-end-before-begin:late-start"
-				} else if cd > 1000 {
-					key = "long-cue"
 				}
 				fail(key, fmt.Sprintf("wvtt sample with duration %d (uint32 of a negative difference)", s.Dur))
 				return
@@ -387,11 +416,16 @@ func checkSegment(c *lib.Ctx, id string, in segIn, ref lib.SegObs, ts int64, o s
 	if !same {
 		fail(diffKey(), fmt.Sprintf("cues %s, expected %s for segment [%d,%d) ms, UTC %d ms, cue duration %d", fmtGot(got), fmtWant(want), T, T+D, U, cd))
 	}
+	if cd > 1000 {
+		if dl := designCuesLong(T, D, U, cd); !sameCues(got, dl) {
+			fail("not-the-design", fmt.Sprintf("cues %s, the design for long cues (one per %d s) gives %s for segment [%d,%d) ms, UTC %d ms, cue duration %d", fmtGot(got), (cd+999)/1000, fmtWant(dl), T, T+D, U, cd))
+		}
+	}
 	prevEnd := T
 	for i, g := range got {
 		if !(g.Begin < g.End) || g.Begin < prevEnd || g.End > T+D {
-			if same {
-				fail("cues-wrong", fmt.Sprintf("cue %d [%d,%d) not ordered/inside [%d,%d)", i, g.Begin, g.End, T, T+D))
+			if same || cd > 1000 {
+				fail("cues-malformed", fmt.Sprintf("cue %d [%d,%d) not ordered/inside [%d,%d)", i, g.Begin, g.End, T, T+D))
 			}
 		}
 		prevEnd = g.End
@@ -532,6 +566,21 @@ func oracleCue(c *lib.Ctx, id string, in directCue, class int, got []cueObs, msg
 			if got[i].Begin != want[i].Begin || got[i].End != want[i].End || got[i].UTC != want[i].UTC {
 				same = false
 			}
+		}
+	}
+	if in.CueDur > 1000 {
+		if dl := designCuesLong(in.SegStart, in.SegDur, in.UtcStart, in.CueDur); !sameCues(got, dl) {
+			c.Fail(id, "long-cue:not-the-design", fmt.Sprintf("calcCueItvls(%d,%d,%d,%d) = %s, the design for long cues gives %s", in.SegStart, in.SegDur, in.UtcStart, in.CueDur, fmtGot(got), fmtWant(dl)), in)
+		}
+	}
+	if in.CueDur > 1000 { // whatever the design for long cues: ordered, non-empty, inside the segment
+		prev := in.SegStart
+		for i, g := range got {
+			if !(g.Begin < g.End) || g.Begin < prev || g.End > in.SegStart+in.SegDur {
+				c.Fail(id, "long-cue:cues-malformed", fmt.Sprintf("calcCueItvls(%d,%d,%d,%d) = %s: cue %d not ordered/inside the segment", in.SegStart, in.SegDur, in.UtcStart, in.CueDur, fmtGot(got), i), in)
+				break
+			}
+			prev = g.End
 		}
 	}
 	if !same {
